@@ -1,9 +1,9 @@
 SPECIFICATION MCSpec
 CONSTANTS
-  Proc = {"s1", "s2"}
-  CloneSeq <- Clones0
+  Proc = {"s1", "s2", "s3"}
+  CloneSeq <- Clones2
   Defect_CheckThenClone = FALSE
-  Defect_UnlockedJoin = TRUE
+  Defect_UnlockedJoin = FALSE
   Defect_SplitDrop = FALSE
 INVARIANTS
   Export
